@@ -40,6 +40,11 @@ def gen_pop(rng, multi):
             if d is not None:
                 used_src.add(s)
             conns.append({'s': s, 't': t, 'W': W, 'dsteps': d, 'eps': rng.uniform(-0.4, 0.4)})
+            if isinstance(W, list) and rng.random() < 0.3:
+                # a coupling FUNCTION on the connection (Connectivity(edge=EdgeTemplate, edge_var_map=...)): evaluated over
+                # the (target, source) pair space on the - possibly delayed - source; connections share the coupling
+                # operator object and differ in its override
+                conns[-1]['coup'] = {'kind': rng.choice(['tanh', 'diff']), 'kk': 1.0}
     if not conns:
         conns.append({'s': 'pa', 't': 'pb', 'W': 0.5, 'dsteps': 3, 'eps': 0.1})
     return {'kind': 'pop', 'pops': pops, 'conns': conns}
@@ -56,10 +61,21 @@ def build_pop(spec, dt, share=None):
     pops = {k: PopulationTemplate(name=k, node=nd, n=p['n'], params={'lin/a': list(p['a']), 'lin/x': list(p['x0'])})
             for k, p in spec['pops'].items()}
     conns = []
-    for c in spec['conns']:
+    from pyrates import EdgeTemplate
+    # (non-dynamic coupling functions carry no constants: the implementation refuses them loudly)
+    cops = {'tanh': OperatorTemplate(name='cop_t', equations=["m = tanh(s_pre)"],
+                                     variables={'m': 'output', 's_pre': 'input'}),
+            'diff': OperatorTemplate(name='cop_d', equations=["m = s_pre - s_post"],
+                                     variables={'m': 'output', 's_pre': 'input', 's_post': 'input'})}
+    for j, c in enumerate(spec['conns']):
         W = c['W'] if not isinstance(c['W'], list) else np.array(c['W'])
-        d = (c['dsteps'] + c['eps']) * dt if c['dsteps'] else None
-        conns.append(Connectivity(f"{c['s']}/lin/x", f"{c['t']}/lin/u", W, delays=d))
+        d = (c['dsteps'] + c['eps']) * dt if c.get('dsteps') else c.get('delay')
+        ekw = {}
+        if c.get('coup'):
+            k_ = c['coup']['kind']
+            ekw['edge'] = EdgeTemplate(name=f'cpl{j}', operators=[cops[k_]])
+            ekw['edge_var_map'] = {'s_pre': 'source'} if k_ == 'tanh' else {'s_pre': 'source', 's_post': f"{c['t']}/lin/x"}
+        conns.append(Connectivity(f"{c['s']}/lin/x", f"{c['t']}/lin/u", W, delays=d, spread=c.get('spread'), **ekw))
     if share is not None:
         if 'pops' in share:
             pops, conns = share['pops'], share['conns']
@@ -395,6 +411,14 @@ class C09(Check):
                         else:
                             src = np.zeros(sq['n'])
                         W = cn['W']
+                        if cn.get('coup'):
+                            bump('coupling_function')
+                            post = np.array([float(yv[pos[f'{tp}/lin/x#{i}']]) for i in range(tq['n'])])
+                            kk = cn['coup']['kk']
+                            F = kk * np.tanh(src)[None, :] * np.ones((tq['n'], 1)) if cn['coup']['kind'] == 'tanh' \
+                                else kk * (src[None, :] - post[:, None])
+                            exp += (np.array(W) * F).sum(axis=1)
+                            continue
                         exp += (np.array(W) @ src) if isinstance(W, list) else W * src.sum()
                     for i in range(tq['n']):
                         nm = f'{tp}/lin/x#{i}'
